@@ -5,8 +5,11 @@ import MgpuModel.Util
 `EnqueueLaunchKernel` / `enqueueLaunchUnifiedKernel`, as far as the code object is concerned:
 which device buffers are allocated (`AllocateMemory(ctx, len(co.Data))`, kernarg, packet), which
 commands are appended to the queue (`EnqueueMemCopyH2D(queue, dCoData, co.Data)` …), what the AQL
-packet points at (`KernelObject = dCoData`), and the driver-wide cache `codeObjGPUAddrs`, keyed by
-the `*KernelCodeObject` pointer only.  The allocator's answers are inputs (`addrs`): they are the
+packet points at (`KernelObject = dCoData`), and the driver-wide cache `codeObjGPUAddrs`.  `step` keys the
+cache by the tag `Co.id` of the code object.  With the tag = the `*KernelCodeObject` pointer this is the driver
+BEFORE the repair of round R4 (`run`); the repaired driver keys the cache by `codeObjKey{pid, co}`: `stepP` /
+`runP` are `step` with the tag `ckey pid pointer` (`keyOp`), so every command and every uploaded byte is tagged
+with (process, object).  The allocator's answers are inputs (`addrs`): they are the
 subject of C10.  The compute units start a wavefront at `KernelObject + KernelCodeEntryByteOffset`
 (`emu/computeunit.go`, `timing/cu/wfdispatcher.go`): `entryPC`.
 
@@ -124,6 +127,27 @@ def step (s : State) : Op → State
 
 def run (ops : List Op) : State := ops.foldl step {}
 
+/-! ### the repaired driver: cache key = (process of the launching context, code object) -/
+
+/-- `codeObjKey{pid, co}` as one number: an injective pairing (`(p + i)² + p`) -/
+def ckey (pid id : Nat) : Nat := (pid + id) * (pid + id) + pid
+
+/-- the operation with the code object tagged by the key the repaired `EnqueueLaunchKernel` uses:
+    `queue.Context.pid` and the pointer (the unified variant has no cache; its commands are tagged the same way) -/
+def keyOp (qs : List Queue) : Op → Op
+  | .newQueue pid => .newQueue pid
+  | .launch q gpu co addrs => .launch q gpu { co with id := ckey (pidOf qs q) co.id } addrs
+  | .launchUnified q gpus co addrs => .launchUnified q gpus { co with id := ckey (pidOf qs q) co.id } addrs
+
+/-- one API call of the repaired driver -/
+def stepP (s : State) (op : Op) : State := step s (keyOp s.queues op)
+
+/-- state of the repaired driver after a history, together with the history as `step` saw it (tags = keys) -/
+def keyed (ops : List Op) : State × List Op :=
+  ops.foldl (fun acc op => (stepP acc.1 op, acc.2 ++ [keyOp acc.1.queues op])) ({}, [])
+
+def runP (ops : List Op) : State := (keyed ops).1
+
 /-- where a wavefront of the kernel starts: `pkt.KernelObject + co.KernelCodeEntryByteOffset` -/
 def entryPC (ko : Nat) (co : Co) : Nat := ko + co.entry
 
@@ -188,7 +212,7 @@ def execStep (e : Exec) (q : Nat) : Exec :=
 def exec (s : State) (sched : List Nat) : Exec := sched.foldl execStep { queues := s.queues }
 
 /-! ## line protocol: `c13 drv ; q <pid> ; l <q> <gpu> <id> <len> <karg> <entry> <addr…> ; u <q> <g,g,…> <id> <len> <karg> <entry> <addr…>`
-answer: per operation the allocations `size@addr` and the commands appended, then the cache. -/
+answer: per operation the allocations `size@addr` and the commands appended (code-object tags = `ckey pid id`). -/
 
 def cmdStr : Cmd → String
   | .copyCode d c l => s!"code:{d}:{c}:{l}"
@@ -220,7 +244,7 @@ def handleDrv (parts : List String) : String :=
   let (_, out) := parts.foldl (fun (acc : State × List String) p =>
     match opOf (Util.words p) with
     | none => (acc.1, acc.2 ++ ["bad"])
-    | some op => let s' := step acc.1 op; (s', acc.2 ++ [deltaStr acc.1 s'])) (({} : State), [])
+    | some op => let s' := stepP acc.1 op; (s', acc.2 ++ [deltaStr acc.1 s'])) (({} : State), [])
   " | ".intercalate out
 
 end Drv
